@@ -68,7 +68,7 @@ func c02R1(c *Ctx) {
 	if fn := c.SSA(r, pConn, "(*Source).deliverOneAck"); fn != nil && f != nil {
 		ok := false
 		for _, st := range kit.FieldStores(fn, f) {
-			if p, isP := st.Val.(*ssa.Parameter); isP && p.Name() == "positions" {
+			if st.Val == argParam(fn, 0) {
 				ok = true
 			} else {
 				c.R.Fail(r, "deliverOneAck: AckPositions value", c.Pos(st.Pos()), "AckPositions is not the positions parameter")
@@ -375,7 +375,7 @@ func c02R5(c *Ctx) {
 	srcT := c.Type(r, pConn, "Source")
 	perT := c.Type(r, pConn, "Persister")
 	requires := map[string][]string{
-		"(*" + pConn + ".Persister).triggerFlush": {"p.m"},
+		"(*" + pConn + ".Persister).triggerFlush": {"recv.m"},
 	}
 	exempt := map[string]string{
 		// constructor before publication
@@ -412,7 +412,7 @@ func c02R5(c *Ctx) {
 			ls := kit.Locksets(fn, spec, nil)
 			for _, call := range kit.CallsTo(fn, Set(tf)) {
 				held := ls[call]
-				c.R.Check(containsLock(held, "p.m"), r, m+": triggerFlush called with p.m held", c.Pos(call.Pos()), "held "+held, "triggerFlush (requires p.m) is called without p.m held: "+held, true)
+				c.R.Check(containsLock(held, "recv.m"), r, m+": triggerFlush called with p.m held", c.Pos(call.Pos()), "held "+held, "triggerFlush (requires p.m) is called without p.m held: "+held, true)
 			}
 		}
 		c.WhoMayRef(r, "Persister.triggerFlush", Set(tf), []string{pConn + ".(*Persister).Flush", pConn + ".(*Persister).Persist", pConn + ".(*Persister).ConnectorStopped"})
@@ -425,11 +425,11 @@ func c02R5(c *Ctx) {
 		persist := c.Fn(r, pConn, "(*Persister).Persist")
 		for _, st := range kit.FieldStores(ack, stateF) {
 			held := ls[st]
-			c.R.Check(containsLock(held, "s.Instance.RWMutex"), r, "Source.Ack: State store under the Instance lock", c.Pos(st.Pos()), "held "+held, "Instance.State is written without the Instance lock: "+held, true)
+			c.R.Check(containsLock(held, "recv.Instance.RWMutex"), r, "Source.Ack: State store under the Instance lock", c.Pos(st.Pos()), "held "+held, "Instance.State is written without the Instance lock: "+held, true)
 		}
 		for _, call := range kit.CallsTo(ack, Set(persist)) {
 			held := ls[call]
-			c.R.Check(containsLock(held, "s.Instance.RWMutex"), r, "Source.Ack: Persist under the Instance lock", c.Pos(call.Pos()), "held "+held, "Persist (which snapshots the instance) is called without the Instance lock: "+held, true)
+			c.R.Check(containsLock(held, "recv.Instance.RWMutex"), r, "Source.Ack: Persist under the Instance lock", c.Pos(call.Pos()), "held "+held, "Persist (which snapshots the instance) is called without the Instance lock: "+held, true)
 		}
 	}
 }
@@ -483,8 +483,8 @@ func c02R6(c *Ctx) {
 				good := false
 				if u, ok := st.Val.(*ssa.UnOp); ok && u.Op == token.MUL {
 					if ia, ok := u.X.(*ssa.IndexAddr); ok {
-						if p, ok := ia.X.(*ssa.Parameter); ok && p.Name() == "p" {
-							if bo, ok := ia.Index.(*ssa.BinOp); ok && bo.Op == token.SUB && kit.IsIntConst(bo.Y, 1) && kit.IsLenOf(bo.X, func(v ssa.Value) bool { return v == ssa.Value(p) }) {
+						if p := argParam(ack, 1); p != nil && ia.X == p {
+							if bo, ok := ia.Index.(*ssa.BinOp); ok && bo.Op == token.SUB && kit.IsIntConst(bo.Y, 1) && kit.IsLenOf(bo.X, func(v ssa.Value) bool { return v == p }) {
 								good = true
 							}
 						}
